@@ -31,6 +31,12 @@ NEEDS = {
  "C16-b": ("C16", "SimpleVob::clear_excessive_bits works word-wise and skips the word at size/32 when size % 32 == 0: a set with spare capacity (alloc_token_set: vocab+1 bits) shows ids vocab..vocab+31 after set_all(true) / negated() when the vocabulary size is a multiple of 32", ["C16"]),
  "C18-b": ("C18", "StopController::commit_token_u8 no longer resets the stop-regex state at a special token: a half-matched stop string survives a special token and completes after it, cutting text that contains no stop", ["C18"]),
  "C20-b": ("C20", "TokenParser::rollback skips parser.rollback when bytes_to_drop == 0: rolling back exactly an EOS committed with a greedy lexeme open leaves the flushed lexer-stack entry; a later commit + EOS panics (lexer_stack/bytes mismatch) and the matcher latches an internal error", ["C20", "C12", "C11"]),
+ "C02-c": ("C02", "the one-entry mask cache of ParserState::compute_bias no longer keys on row_idx: after compute_mask, a token crossing a lexeme boundary that lands in the same lexer state in a later Earley row gets the stale mask (NAME \"=\" NAME \";\" with token \"=b\"); byte-at-a-time histories are unaffected", ["C02", "C01", "C11"]),
+ "C03-c": ("C03", "check_number_bounds uses trunc() instead of floor() for the upper multiple: a two-sided range with a negative non-multiple maximum and no multiple inside ([-11,-7] multipleOf 6) compiles into a lexeme with an empty language: empty mask at the top level, dead end after allowed tokens when nested", ["C03", "C08"]),
+ "C04-c": ("C04", "forced_byte() tries only 255 of the 256 candidates: the byte just below the lexer's hint is never tried, so with forcing on (canonical tokenizer) b?a / b*a / 1{0,2}0 force the hint byte although a second byte is legal (b*a then forces forever: memory blow-up)", ["C04", "C13"]),
+ "C05-c": ("C05", "process_agenda skips prediction of a symbol already predicted in the current Earley set and with it the nullable-advance step: a named nullable rule directly after the dot in two items of one set loses the empty derivation in the second (start: a \"c\" | a \"d\"; a: \"x\"?)", ["C05"]),
+ "C08-c": ("C08", "normalize_integer_bounds drops floor() on integer maximum / exclusiveMaximum and relies on `as i64` (truncation toward zero): a negative non-integer upper bound admits trunc(max) and integer-free intervals compile", ["C08"]),
+ "C09-c": ("C09", "gen_json_array: n_to_add = max_items.unwrap_or(min_items).max(prefix_len): maxItems smaller than the number of prefixItems admits up to len(prefixItems) elements", ["C09", "C06"]),
 }
 ids = sys.argv[1:] or sorted(NEEDS)
 for sid in ids:
